@@ -243,7 +243,15 @@ impl<P: RuntimeProvider> Request for UdpRequest<P> {
                 continue;
             }
 
-            let mut response = DnsResponse::from_buffer(response_buffer)?;
+            let mut response = match DnsResponse::from_buffer(response_buffer) {
+                Ok(response) => response,
+                Err(error) => {
+                    // an undecodable datagram is handled like any other non-matching one:
+                    // it uses up one of the receive attempts and the genuine reply is awaited
+                    warn!(%error, "ignoring undecodable response from {src}");
+                    continue;
+                }
+            };
 
             // Validate the message id in the response matches the value chosen for the query.
             if msg_id != response.id {
